@@ -50,7 +50,7 @@ Lemma emoves_keep e r r' :
   emoves e r r' -> forall t, In t r -> is_locked t = true -> owner_is e t = false -> In t r'.
 Proof.
   induction 1 as [r|r r' ids H IH|r r' tg rf dst H IH|r r' ids H IH|r r' H IH]; intros t Hin Hl Ho; auto.
-  - apply release_keeps; auto.
+  - apply release_keeps; auto. right. apply is_locked_true in Hl. apply Hl.
   - apply command_keeps; auto.
   - apply kill_keeps_locked; auto.
   - apply cleanup_keeps_locked; auto.
@@ -65,19 +65,17 @@ Proof.
   - apply cleanup_ids_nodup. auto.
 Qed.
 
-(* every task of the result stems from a task of the same id, status and owner,
-   except that the owner [e] may have been taken away *)
+(* every task of the result stems from a task of the same id, status, id-flag and owner,
+   except that the parent may have been cleared *)
 Lemma emoves_origin e r r' :
   emoves e r r' -> forall t', In t' r' ->
   exists t, In t r /\ t_id t = t_id t' /\ t_active t = t_active t' /\
-            (t_owner t' = t_owner t \/ (t_owner t = Some e /\ t_owner t' = None)).
+            (t_owner t' = t_owner t \/ t_owner t' = None).
 Proof.
   induction 1 as [r|r r' ids H IH|r r' tg rf dst H IH|r r' ids H IH|r r' H IH]; intros t' Hin.
   - exists t'. auto.
   - apply release_spec in Hin. destruct Hin as [Hin|[t [Ht [Ho [_ ->]]]]]; [auto|].
     destruct (IH t Ht) as [t0 [H0 [H1 [H2 H3]]]]. exists t0. repeat split; auto.
-    cbn [set_owner t_owner]. right. split; [|reflexivity].
-    destruct H3 as [H3|[H3 H4]]; congruence.
   - apply command_spec in Hin. destruct Hin as [t [Ht [->|[_ ->]]]]; [auto|].
     destruct (IH t Ht) as [t0 [H0 [H1 [H2 H3]]]]. exists t0. repeat split; auto.
   - apply kill_sub in Hin. auto.
@@ -85,32 +83,33 @@ Proof.
 Qed.
 
 (* a task of the result that is unlocked or owned by [e] does not bear the id of a task that
-   another environment owned before *)
+   another environment held locked before *)
 Lemma emoves_touch e r r' :
   NoDup (map t_id r) -> emoves e r r' ->
-  forall t', In t' r' -> (t_owner t' = None \/ t_owner t' = Some e) ->
-  forall t0 e', In t0 r -> t_id t0 = t_id t' -> t_owner t0 = Some e' -> e' = e.
+  forall t', In t' r' -> (is_locked t' = false \/ t_owner t' = Some e) ->
+  forall t0 e', In t0 r -> t_id t0 = t_id t' -> t_owner t0 = Some e' -> t_idok t0 = true -> e' = e.
 Proof.
-  intros Hnd Hm t' Hin' Ho' t0 e' Hin0 Eid Ho0.
+  intros Hnd Hm t' Hin' Ho' t0 e' Hin0 Eid Ho0 Hk0.
   destruct (N.eq_dec e' e) as [|Hne]; [assumption|exfalso].
   assert (Hk : In t0 r').
   { eapply emoves_keep; eauto.
-    - apply is_locked_true. eauto.
+    - eapply locked_intro; eauto.
     - eapply owner_is_other; eauto. }
   assert (E : t0 = t').
   { apply (nodup_map_inj t_id r'); auto. eapply emoves_nodup; eauto. }
-  subst t'. destruct Ho' as [Ho'|Ho']; congruence.
+  subst t'. destruct Ho' as [Ho'|Ho']; [|congruence].
+  rewrite (locked_intro t0 e' Ho0 Hk0) in Ho'. discriminate.
 Qed.
 
 Definition touched (e : N) (r0 : roster) (k : tid) : Prop :=
   exists r', emoves e r0 r' /\
-             exists t', In t' r' /\ t_id t' = k /\ (t_owner t' = None \/ t_owner t' = Some e).
+             exists t', In t' r' /\ t_id t' = k /\ (is_locked t' = false \/ t_owner t' = Some e).
 
 Lemma touched_ok e r0 k :
   NoDup (map t_id r0) -> touched e r0 k ->
-  forall t0 e', In t0 r0 -> t_id t0 = k -> t_owner t0 = Some e' -> e' = e.
+  forall t0 e', In t0 r0 -> t_id t0 = k -> t_owner t0 = Some e' -> t_idok t0 = true -> e' = e.
 Proof.
-  intros Hnd [r' [Hm [t' [Hin [Eid Ho]]]]] t0 e' H0 E0 Ho0.
+  intros Hnd [r' [Hm [t' [Hin [Eid Ho]]]]] t0 e' H0 E0 Ho0 Hk0.
   eapply emoves_touch; eauto. congruence.
 Qed.
 
@@ -122,13 +121,13 @@ Qed.
 Lemma kill_touched e r ids k : In k (snd (kill_tasks ids r)) -> touched e r k.
 Proof.
   intro H. apply kill_kills in H. destruct H as [t [Hin [Eid [Hl _]]]].
-  exists r. split; [constructor|]. exists t. repeat split; auto. left. apply is_locked_false, Hl.
+  exists r. split; [constructor|]. exists t. repeat split; auto.
 Qed.
 
 Lemma cleanup_touched e r k : In k (snd (cleanup r)) -> touched e r k.
 Proof.
-  intro H. apply cleanup_kills in H. destruct H as [t [Hin [Eid [Hl _]]]].
-  exists r. split; [constructor|]. exists t. repeat split; auto. left. apply is_locked_false, Hl.
+  intro H. apply cleanup_kills in H. destruct H as [t [Hin [Eid Hl]]].
+  exists r. split; [constructor|]. exists t. repeat split; auto.
 Qed.
 
 Lemma active_owned_touched e ids r k : In k (active_owned_in e ids r) -> touched e r k.
@@ -163,37 +162,6 @@ Qed.
 
 Lemma envs_kept_app e l m : envs_kept e l (l ++ m).
 Proof. intros x Hx _. apply in_or_app. left. exact Hx. Qed.
-
-(* ------------------------------------------------------------------ teardown *)
-Lemma teardown_good force e s :
-  emoves e (s_roster s) (s_roster (td_st (teardown force e s))) /\
-  envs_kept e (s_envs s) (s_envs (td_st (teardown force e s))) /\
-  s_snaps (td_st (teardown force e s)) = s_snaps s.
-Proof.
-  unfold teardown.
-  destruct (find_env e (s_envs s)) as [x|]; cbn [td_st];
-    [|split; [constructor|split; [apply envs_kept_refl|reflexivity]]].
-  destruct (N.eqb (e_state x) ES_DONE); cbn [td_st];
-    [split; [constructor|split; [apply envs_kept_refl|reflexivity]]|].
-  destruct (negb force && negb (N.eqb (e_state x) ES_STANDBY || N.eqb (e_state x) ES_DEPLOYED)); cbn [td_st];
-    [split; [constructor|split; [apply envs_kept_refl|reflexivity]]|].
-  set (groups := merged x).
-  set (torelease := filter _ (bound_tids x)).
-  destruct (release e torelease (s_roster s)) as [r1 n1] eqn:E1.
-  assert (M1 : emoves e (s_roster s) r1).
-  { replace r1 with (fst (release e torelease (s_roster s))) by (rewrite E1; reflexivity).
-    constructor. constructor. }
-  destruct (negb (N.eqb n1 0)); cbn [td_st s_roster s_envs s_snaps];
-    [split; [exact M1|split; [apply envs_kept_refl|reflexivity]]|].
-  set (lastmsg := match groups with [] => torelease | _ => _ end).
-  destruct (release e lastmsg r1) as [r2 n2] eqn:E2.
-  assert (M2 : emoves e (s_roster s) r2).
-  { replace r2 with (fst (release e lastmsg r1)) by (rewrite E2; reflexivity).
-    constructor. exact M1. }
-  destruct (negb (N.eqb n2 0)); cbn [td_st s_roster s_envs s_snaps].
-  - split; [exact M2|split; [apply envs_kept_upd|reflexivity]].
-  - split; [exact M2|split; [apply envs_kept_remove|reflexivity]].
-Qed.
 
 Lemma transition_good x dst fail r :
   let '(r', tg, ok) := transition x dst fail r in
